@@ -49,6 +49,15 @@ func grantingPattern(r *rand.Rand, can string) string {
 	return can
 }
 
+func findSpec(specs []*TokSpec, name string) *TokSpec {
+	for _, s := range specs {
+		if s.Name == name {
+			return s
+		}
+	}
+	return nil
+}
+
 func irrelevantCap(r *rand.Rand, with string) CapSpec {
 	return CapSpec{Can: pick(r, []string{"debug/echo", "other/thing", "store/remove", "stor/*", "store"}), With: with, Nb: Cav{}}
 }
@@ -105,9 +114,20 @@ func chainWorldIn(r *rand.Rand, id int, seed int64, k chainKnobs, cast *Cast, pr
 		info.Valid = false // RSA issuer on the path, parser only knows Ed25519
 	}
 	// can-issue policy: self-issued, or an owner table (then `with` need not be the owner's DID)
-	if r.Intn(4) == 0 {
+	switch r.Intn(8) {
+	case 0, 1:
 		w.Ctx.SelfIssued = false
 		with = pick(r, []string{"https://example.com/bucket", "did:web:space.example", "urn:thing:1"})
+		w.Ctx.Owners[with] = owner
+	case 2:
+		// a policy STRICTER than self-issue: the resource is the chain root's own DID, but only someone else may
+		// issue capabilities on it — the chain is not rooted, whoever names himself as the resource
+		w.Ctx.SelfIssued = false
+		w.Ctx.Owners[with] = carol
+		info.Valid = false
+	case 3:
+		// ... and the same policy naming the chain root: valid
+		w.Ctx.SelfIssued = false
 		w.Ctx.Owners[with] = owner
 	}
 
@@ -131,6 +151,7 @@ func chainWorldIn(r *rand.Rand, id int, seed int64, k chainKnobs, cast *Cast, pr
 		defects = append(defects, d)
 	}
 	prev := ""
+	prevDefect := "" // a defect of the token just built that makes it an invalid proof (for the twin decoy)
 	for i := 1; i <= depth+1; i++ {
 		isInv := i == depth+1
 		sp := &TokSpec{Name: fmt.Sprintf("%sd%d", prefix, i), Issuer: prins[i-1], Exp: &far}
@@ -258,6 +279,19 @@ func chainWorldIn(r *rand.Rand, id int, seed int64, k chainKnobs, cast *Cast, pr
 				}
 			}
 		}
+		// a second copy of a DEFECTIVE proof (same defect, other nonce) cited immediately before it: two bad proofs in a row
+		if len(sp.Proofs) > 0 && prevDefect != "" && r.Intn(2) == 0 {
+			if pb := findSpec(w.Specs, prev); pb != nil {
+				tw := *pb
+				tw.Name = prev + "_twin"
+				tw.Nonce = pb.Nonce + "twin"
+				tw.Caps = append([]CapSpec{}, pb.Caps...)
+				tw.Proofs = append([]ProofRef{}, pb.Proofs...)
+				w.Specs = append(w.Specs, &tw)
+				sp.Proofs = append([]ProofRef{{Tok: tw.Name, Inline: true}}, sp.Proofs...)
+				info.Decoys++
+			}
+		}
 		// decoys: extra proofs that do not help
 		if k.Decoys > 0 && len(sp.Proofs) > 0 {
 			for n := r.Intn(k.Decoys + 1); n > 0; n-- {
@@ -297,6 +331,15 @@ func chainWorldIn(r *rand.Rand, id int, seed int64, k chainKnobs, cast *Cast, pr
 		}
 		w.Specs = append(w.Specs, sp)
 		prev = sp.Name
+		prevDefect = ""
+		for _, d := range defects {
+			if d.pos == i {
+				switch d.kind {
+				case "expired", "too-early", "forged", "tamper-sig", "tamper-exp", "misaligned", "tamper-aud":
+					prevDefect = d.kind
+				}
+			}
+		}
 	}
 	if k.Revocation && r.Intn(2) == 0 {
 		// revoke one token of the main chain
